@@ -14,16 +14,19 @@ META = {
 }
 
 THEOREMS = ["C04.barrier_exclusion", "C04.barrier_owner_unique", "C04.width_accounting", "C04.nonbarrier_running_accounted",
-            "C04.fifo_every_width", "C04.barrier_after_earlier_readers", "C04.nothing_starts_during_barrier"]
+            "C04.fifo_every_width", "C04.barrier_after_earlier_readers", "C04.nothing_starts_during_barrier", "C04.reader_count_below_barrier", "C04.F44_reader_count_carries"]
 
 
 def run(ctx):
     ctx.proof("DispatchVerif.Props.C04", THEOREMS)
     ctx.assumptions += ["sequentially consistent interleaving model of the atomic operations", "priority / override bits of dq_state are not modelled",
-                        "known finding F15: a dispatch_barrier_sync on the fast path can start before an asynchronous item whose submission had returned"]
+                        "known finding F15: a dispatch_barrier_sync on the fast path can start before an asynchronous item whose submission had returned",
+                        "known finding F44: the theorems count readers in a natural number; they describe dq_state while fewer than 8190 dispatch_sync readers are inside one queue at once (C04.reader_count_below_barrier)"]
     cfg = [(4, 400, 0), (8, 300, 0), (12, 200, 0), (4, 800, 0, 0, -2), (4, 800, 0, 0, -3)] if not ctx.thorough else [(4, 3000, 0), (8, 2500, 0), (12, 2000, 0), (16, 1500, 0), (3, 4000, 0), (4, 8000, 0, 0, -2), (4, 8000, 0, 0, -3), (4, 8000, 0, 0, -5)]
     run_lane(ctx, cfg, what="c04", order_property=True)
     forced(ctx, "f15_sync_overtake", "F15", "lane:order:sync-fastpath-overtakes:forced-F15", "F15")
+    # known finding F44: more simultaneous dispatch_sync readers than the reader count in dq_state can hold (8190 on the widest queue)
+    forced(ctx, "f44_reader_overflow", "F44", "lane:barrier:reader-count-carries:forced-F44", "F44")
     # beyond the property's own histories: the (private, legacy) width setter on a busy queue - the drainer that ran it gives the queue
     # back with the width it has now (widths >= 2 and the automatic constants)
     from tracecheck import run_traces
